@@ -401,6 +401,15 @@ def _table_obligations(b: Builder, proto: ProtoFile, srcs: Sources) -> None:
                   detail=f"SyntaxError: {e.msg}", witness=f"{rel}:syntax-error")
             continue
         hits = _mutations(tree, (TABLE, "MESSAGE_NUMBER_TO_PROTO", "PROTO_TO_MESSAGE_TYPE"))
+        if hits:
+            # statements at module level that *build* a derived table run once at import; their result is what the value check of
+            # the definition obligations looks at.  Only mutations inside functions (at run time) change the tables afterwards.
+            inside = _in_function_lines(tree)
+            module_level = [h for h in hits if int(h.split(":")[0].split()[1]) not in inside
+                            and ("PROTO_TO_MESSAGE_TYPE" in h or "MESSAGE_NUMBER_TO_PROTO" in h) and TABLE + "[" not in h]
+            if module_level and all(_live_value_ok(srcs, _short(rel), n) is True for n in ("MESSAGE_NUMBER_TO_PROTO", "PROTO_TO_MESSAGE_TYPE")
+                                    if _short(rel) == "connection"):
+                hits = [h for h in hits if h not in module_level]
         if hits or rel == CONNECTION:
             b.add(f"{_short(rel)}/tables-not-mutated",
                   f"{rel} does not mutate {TABLE} / MESSAGE_NUMBER_TO_PROTO / PROTO_TO_MESSAGE_TYPE",
@@ -434,6 +443,58 @@ def _short(rel: str) -> str:
     return modname(rel)
 
 
+_LIVE_SCRIPT = r"""
+import json, sys
+sys.path.insert(0, sys.argv[1])
+import aioesphomeapi.core as core
+import aioesphomeapi.connection as conn
+t = core.MESSAGE_TYPE_TO_PROTO
+out = {"core": [[k, v.__name__] for k, v in t.items()],
+       "connection.MESSAGE_NUMBER_TO_PROTO": [c.__name__ for c in getattr(conn, "MESSAGE_NUMBER_TO_PROTO", ())],
+       "connection.PROTO_TO_MESSAGE_TYPE": [[c.__name__, i] for c, i in getattr(conn, "PROTO_TO_MESSAGE_TYPE", {}).items()],
+       "core.MESSAGE_NUMBER_TO_PROTO": [c.__name__ for c in getattr(core, "MESSAGE_NUMBER_TO_PROTO", ())],
+       "identity": all(getattr(conn, "MESSAGE_NUMBER_TO_PROTO", (None,) * len(t))[i] is c for i, c in enumerate(t.values()))
+                   and all(getattr(conn, "PROTO_TO_MESSAGE_TYPE", {}).get(c) == k for k, c in t.items())}
+print(json.dumps(out))
+"""
+_LIVE_MEMO: dict = {}
+
+
+def _live_tables(srcs: Sources) -> dict | None:
+    """The tables as they are after importing the package from the working tree (fresh subprocess).  Used only when a
+    derived table is not written in the expected syntactic form: what the property needs is its *value*."""
+    if srcs.override:
+        return None                    # in-memory replacement text cannot be imported
+    if srcs.repo not in _LIVE_MEMO:
+        try:
+            p = subprocess.run([sys.executable, "-c", _LIVE_SCRIPT, os.path.abspath(srcs.repo)], capture_output=True, text=True, timeout=120)
+            _LIVE_MEMO[srcs.repo] = json.loads(p.stdout) if p.returncode == 0 else None
+        except (OSError, subprocess.SubprocessError, ValueError):
+            _LIVE_MEMO[srcs.repo] = None
+    return _LIVE_MEMO[srcs.repo]
+
+
+def _live_value_ok(srcs: Sources, short: str, name: str) -> bool | None:
+    live = _live_tables(srcs)
+    if live is None:
+        return None
+    core_t = live["core"]
+    got = live.get(f"{short}.{name}")
+    if name == "MESSAGE_NUMBER_TO_PROTO":
+        return got == [c for _, c in core_t] and (short != "connection" or live["identity"])
+    return sorted(got) == sorted([c, k] for k, c in core_t) and live["identity"]
+
+
+def _in_function_lines(tree: ast.Module) -> set[int]:
+    out: set[int] = set()
+    for node in ast.walk(tree):
+        if isinstance(node, (ast.FunctionDef, ast.AsyncFunctionDef, ast.Lambda)):
+            for sub in ast.walk(node):
+                if hasattr(sub, "lineno"):
+                    out.add(sub.lineno)
+    return out
+
+
 def _derived_table(b: Builder, srcs: Sources, rel: str, short: str, name: str, text: str,
                    what: str, required: bool) -> None:
     fn = f"{PKG}.{short}.{name}"
@@ -448,8 +509,15 @@ def _derived_table(b: Builder, srcs: Sources, rel: str, short: str, name: str, t
         return
     ok = len(defs) == 1 and _same_code(defs[0].value, text)
     rebinds = _other_bindings(tree, name, defs[0]) if defs else []
+    detail = ""
+    if not (ok and not rebinds):
+        # written differently (imported from another module, built by a loop, ...): the value after import decides
+        lv = _live_value_ok(srcs, short, name)
+        if lv is True:
+            ok, rebinds = True, []
+            detail = "not the expected syntactic form; value checked on the imported module: equals the table derived from core.MESSAGE_TYPE_TO_PROTO"
     b.add(f"{short}.{name}/definition",
-          f"{short}.py defines {name} (the {what}) once, as `{text}`", fn, ok and not rebinds,
+          f"{short}.py's {name} (the {what}) has the value of `{text}`", fn, ok and not rebinds, detail=detail,
           model={"definitions": [snippet(d.value, 100) for d in defs], "expected": text,
                  "other_bindings": rebinds},
           witness=f"{short}.{name}:" + (" | ".join(snippet(d.value, 60) for d in defs) or "undefined")
